@@ -1104,6 +1104,49 @@ fn family_accumulate(tier: Tier, sink: &mut Sink) {
         }
         let dc = b("01000000");
         let types: &[u8] = if s == Stream::Std { &[0, 1] } else { &[0, 1, 2] };
+        // long runs of the elements that may repeat above the block layer: MCBPC stuffing codewords
+        // in front of the first / the second macroblock and extra-information bytes in the header
+        // (a repetition handled by recursion, or counted in a narrow type, shows at a length no
+        // enumeration of short inputs contains)
+        for &pt in types {
+            for (hname, hist) in histories(s, false).into_iter().take(2) {
+                for k in [300usize, 4200, 70000, 300000] {
+                    for what in 0..3usize {
+                        let mine = sink.begin(9, block);
+                        block += 1;
+                        if !mine {
+                            continue;
+                        }
+                        let stuffing = if pt == 0 { b("000000001") } else { b("0000000001") };
+                        let good_mb = if pt == 0 { cat(&[&code(MCBPC_I[0]), &code(CBPY[0]), &dc, &dc, &dc, &dc, &dc, &dc]) } else { b("1") };
+                        let pei = if what == 2 { k.min(70000) } else { 2 };
+                        let mut hd = stream_hdr(s, 32, 16, pt, 5, 2);
+                        let extra: Vec<u8> = (0..pei).map(|i| (i as u8).wrapping_mul(37) ^ 0x5A).collect();
+                        match &mut hd {
+                            Hdr::S(h) => h.pei = extra,
+                            Hdr::Std(h) => h.pei = extra,
+                        }
+                        let mut wr = encode(&Pic { hdr: hd, mbs: vec![] });
+                        if what == 1 {
+                            wr.put_bits(&good_mb);
+                        }
+                        if what < 2 {
+                            let mut run = Vec::with_capacity(k * stuffing.len());
+                            for _ in 0..k {
+                                run.extend(stuffing.iter());
+                            }
+                            wr.put_bits(&run);
+                        }
+                        wr.put_bits(&good_mb);
+                        if what != 1 {
+                            wr.put_bits(&good_mb);
+                        }
+                        wr.put(0, 24);
+                        sink.case(s.opts()[0], &hist, &wr.bytes, &|| format!("accumulate {s:?} type {pt} 32x16 {hname}: {}", ["run of stuffing codewords before the first macroblock", "run of stuffing codewords before the second macroblock", "run of extra-information bytes"][what]) + &format!(" ({k})"));
+                    }
+                }
+            }
+        }
         for &pt in types {
             for (hname, hist) in histories(s, false).into_iter().take(2) {
                 for (bname, body) in &bodies {
